@@ -14,6 +14,7 @@ CONSTANTS
                  \*   nIn / nOut channels inside / outside the amplifier band, ramp = 1: non-flat comb
   Tilts,         \* set of tilt settings
   PinTots,       \* set of total in-band input powers (before the input VOA)
+  NGrids,        \* number of different frequency grids (same channel count) the successive loads are carried on
   MaxCross       \* crossings per history
 
 VARIABLES amp, set, hist
@@ -33,7 +34,8 @@ Crossing(pinRaw) ==
        regime |-> AmpRegime(eff, amp.gainMin, amp.flatMax), sat |-> AmpSaturated(set.gainTarget, amp.pMax, pin),
        outTot |-> AmpOutTot(pin, eff),                       \* at the output of the gain block
        gTot |-> eff - set.var.inVoa - set.var.outVoa,        \* input -> output of the element
-       nOutCh |-> set.var.nIn]                               \* out-of-band channels are not amplified: they are dropped
+       nOutCh |-> set.var.nIn,                               \* out-of-band channels are not amplified: they are dropped
+       grid |-> Len(hist) % NGrids]                          \* successive loads sit on different frequency grids
 
 Cross(pinRaw) == /\ Len(hist) < MaxCross
                  /\ hist' = Append(hist, Crossing(pinRaw))
@@ -59,7 +61,10 @@ PaddingBelowMin     == \A k \in H : /\ hist[k].pad >= 0
                                     /\ hist[k].eff >= amp.gainMin => (hist[k].pad = 0 /\ hist[k].regime # "padded")
 RegimePartition     == \A k \in H : /\ hist[k].regime \in {"padded", "inrange", "extended"}
                                     /\ hist[k].regime = "extended" <=> hist[k].eff > amp.flatMax
-\* no memory: a crossing depends on its own load only; more load never means more gain
-NoMemory            == \A j, k \in H : hist[j].pinRaw = hist[k].pinRaw => hist[j] = hist[k]
+\* no memory: a crossing depends on its own load only (whatever was crossed before, on whatever frequency grid);
+\* more load never means more gain
+Law(h) == [eff |-> h.eff, pad |-> h.pad, regime |-> h.regime, sat |-> h.sat, outTot |-> h.outTot, gTot |-> h.gTot,
+           nOutCh |-> h.nOutCh]
+NoMemory            == \A j, k \in H : hist[j].pinRaw = hist[k].pinRaw => Law(hist[j]) = Law(hist[k])
 MonotoneInLoad      == \A j, k \in H : hist[j].pinRaw <= hist[k].pinRaw => hist[j].eff >= hist[k].eff
 ==============================================================================
